@@ -15,6 +15,7 @@ type CopyOnWriteMap[K, V any] struct {
 var _ fp.MapBase[string, int] = &CopyOnWriteMap[string, int]{}
 
 func (r *CopyOnWriteMap[K, V]) load() fp.UnsafeGoMap[K, V] {
+	verifYield("load")
 	m := r.value.Load()
 
 	if m == nil {
@@ -31,6 +32,7 @@ func (r *CopyOnWriteMap[K, V]) load() fp.UnsafeGoMap[K, V] {
 }
 
 func (r *CopyOnWriteMap[K, V]) copyOnWrite(f func(om fp.UnsafeGoMap[K, V]) fp.UnsafeGoMap[K, V]) fp.UnsafeGoMap[K, V] {
+	verifYield("copyOnWrite")
 
 	r.lock.Lock()
 	defer r.lock.Unlock()
